@@ -15,6 +15,7 @@ type block struct {
 	scope      *cteScope
 	aliases    map[string]Expr
 	aggregated bool
+	static     bool     // evaluating the sample row: no short circuit, report static errors of all branches
 	groupKeys  []Expr   // resolved GROUP BY key expressions
 	groupCanon []string // canonical text of the keys
 }
@@ -115,6 +116,121 @@ func (b *block) hasAggregate(e Expr, visiting map[string]bool) bool {
 		return true
 	})
 	return found
+}
+
+// staticNullable decides syntactically whether an expression has a Nullable
+// type in ClickHouse: NULL literals, *OrNull functions, nullIf / toNullable,
+// CAST to Nullable, Nullable columns, aliases of such expressions, ordinary
+// functions and aggregate functions of a nullable argument. It is used for
+// the result of aggregate functions over zero rows (NULL instead of the
+// default value) and for Result.Types.
+func (b *block) staticNullable(src *relation, x Expr, visiting map[string]bool) bool {
+	switch n := x.(type) {
+	case *Literal:
+		return n.Val == nil
+	case *Ident:
+		if len(n.Parts) == 1 {
+			name := n.Parts[0]
+			if a, ok := b.aliases[name]; ok && a != x && a.Alias() == name && !visiting[name] {
+				// inside its own definition the name is the column (handled by the caller's visiting set)
+				if visiting == nil {
+					visiting = map[string]bool{}
+				}
+				visiting[name] = true
+				r := b.staticNullable(src, a, visiting)
+				delete(visiting, name)
+				return r
+			}
+		}
+		return src != nil && src.isNullable(src.lookup(n.Parts))
+	case *CastExpr:
+		t, err := ParseType(n.Type)
+		return err == nil && t.Name == "Nullable"
+	case *Subquery:
+		return true // a scalar subquery may be empty
+	case *CaseExpr:
+		if n.Else == nil {
+			return true
+		}
+		for _, w := range n.Whens {
+			if b.staticNullable(src, w[1], visiting) {
+				return true
+			}
+		}
+		return b.staticNullable(src, n.Else, visiting)
+	case *FuncCall:
+		if a := n.Alias(); a != "" {
+			if visiting == nil {
+				visiting = map[string]bool{}
+			}
+			if !visiting[a] {
+				visiting[a] = true
+				defer delete(visiting, a)
+			}
+		}
+		name := resolveFuncName(n.Name)
+		anyArg := func(args []Expr) bool {
+			for _, a := range args {
+				if _, isLambda := a.(*Lambda); isLambda {
+					continue
+				}
+				if b.staticNullable(src, a, visiting) {
+					return true
+				}
+			}
+			return false
+		}
+		if spec, ok := lookupAggregate(name); ok {
+			args := n.Args
+			for _, c := range spec.combinators {
+				switch c {
+				case "If":
+					if len(args) > 0 {
+						args = args[:len(args)-1]
+					}
+				case "OrNull":
+					return true
+				case "State", "Merge", "Array":
+					return false
+				}
+			}
+			return !spec.factory.neverNull && anyArg(args)
+		}
+		switch {
+		case strings.HasSuffix(name, "OrNull"), name == "nullIf", name == "toNullable":
+			return true
+		case name == "if":
+			return len(n.Args) == 3 && anyArg(n.Args[1:])
+		case name == "multiIf":
+			for i := 1; i < len(n.Args); i += 2 {
+				if b.staticNullable(src, n.Args[i], visiting) {
+					return true
+				}
+			}
+			return len(n.Args) > 0 && b.staticNullable(src, n.Args[len(n.Args)-1], visiting)
+		case name == "ifNull":
+			return len(n.Args) == 2 && b.staticNullable(src, n.Args[1], visiting)
+		case name == "coalesce":
+			for _, a := range n.Args {
+				if !b.staticNullable(src, a, visiting) {
+					return false
+				}
+			}
+			return true
+		case name == "and", name == "or", isComparison(name):
+			return anyArg(n.Args)
+		case isInFunc(name):
+			return false
+		}
+		if _, isHO := higherOrder[name]; isHO {
+			return false
+		}
+		if fn, ok := scalarFuncs[name]; ok && !fn.handlesNull {
+			return anyArg(n.Args)
+		}
+		return false
+	}
+	return false
 }
 
 // checkAggregated verifies, like ClickHouse's analyzer, that in an aggregated
@@ -257,6 +373,10 @@ func (b *block) expandColumns(src *relation) ([]Expr, []string, error) {
 // the given source rows (grouping them first when the block is aggregated).
 func (b *block) project(src *relation, cols []Expr, rows [][]any, sampleMode bool) ([]outRow, error) {
 	s := b.sel
+	if sampleMode {
+		b.static = true
+		defer func() { b.static = false }()
+	}
 	finish := func(e *env) (outRow, bool, error) {
 		var o outRow
 		if s.Having != nil {
